@@ -120,6 +120,38 @@ pub fn multi_z(n: usize, m: usize, k: usize, buf: usize, seed: u64, zero_at: Opt
     Verdict::Hold
 }
 
+/// An evaluation-point list that names a point twice ([x0, x1, x0]) is outside the documented domain; whatever
+/// prover and verifier do with it (abort included), a claimed evaluation that differs from the true one at any
+/// occurrence - the repeated one in particular - must not be accepted.
+pub fn multi_repeated_point(n: usize, k: usize, seed: u64) -> Verdict {
+    use crate::drivers::common::catch;
+    let delta = sym_nonzero("delta");
+    let eta = sym_nonzero("eta");
+    let (ck, tau) = keys(n + k, 3, seed);
+    let vk = VerifierKey::from(&ck);
+    let (x0, x1) = (sym("x0"), sym("x1"));
+    if !assume_ne(x0, x1, "evaluation points not distinct") || !assume_ne(x0, tau, "evaluation point equals the trapdoor") || !assume_ne(x1, tau, "evaluation point equals the trapdoor") {
+        return Verdict::Hold;
+    }
+    let pts = vec![x0, x1, x0];
+    let polys: Vec<Vec<SF>> = (0..k).map(|i| (0..n + i).map(|j| sym(&format!("f{}_{}", i, j))).collect()).collect();
+    let comms = ck.batch_commit(&polys);
+    let refs: Vec<&Vec<SF>> = polys.iter().collect();
+    let proof = match catch(|| ck.batch_open_multi_points(&refs[..], &pts, &eta)) {
+        Ok(p) => p,
+        Err(_) => return Verdict::Hold,
+    };
+    let evals: Vec<Vec<SF>> = polys.iter().map(|p| pts.iter().map(|x| horner(p, *x)).collect()).collect();
+    for pos in [2usize, 0] {
+        let mut bad = evals.clone();
+        bad[k - 1][pos] += delta;
+        if let Ok(Ok(())) = catch(|| vk.verify_multi_points(&comms, &pts, &bad, &proof, &eta)) {
+            return Verdict::viol("accepted-false-value", format!("verify_multi_points accepted a perturbed evaluation at occurrence {} of a repeated point", pos));
+        }
+    }
+    Verdict::Hold
+}
+
 fn naive_folds(coeffs: &[SF], ch: &[SF]) -> Vec<Vec<SF>> {
     let mut out = vec![];
     let mut cur = coeffs.to_vec();
@@ -229,9 +261,9 @@ pub fn fold(n: usize, k: usize, buf: usize, seed: u64) -> Verdict {
 /// Keys derived from one another interoperate: the time key recovered from a streaming key
 /// (`as_committer_key`), the verifier key derived from the streaming key, `batch_commit` on both sides,
 /// `index_by`, and the additive structure of evaluation proofs.
-pub fn key_interop(n: usize, seed: u64) -> Verdict {
+pub fn key_interop(n: usize, pts: usize, seed: u64) -> Verdict {
     let delta = sym_nonzero("delta");
-    let (ck, _) = keys(n + 2, 2, seed);
+    let (ck, _) = keys(n + 2, pts, seed);
     let cks = CommitterKeyStream::from(&ck);
     let f: Vec<SF> = (0..n).map(|j| sym(&format!("f{}", j))).collect();
     let g: Vec<SF> = (0..n).map(|j| sym(&format!("g{}", j))).collect();
@@ -269,6 +301,31 @@ pub fn key_interop(n: usize, seed: u64) -> Verdict {
         let _ = |x: It| x.len();
         if cks.commit(&sf) != bc[0] || cks.commit(&sg) != bc[1] {
             return Verdict::viol("batch-commit", "space commitments differ from the time batch_commit");
+        }
+    }
+    // a batch whose polynomials get shorter (and end with the empty one): each commitment is still that
+    // polynomial's own commitment
+    {
+        let long: Vec<SF> = (0..n + 2).map(|j| sym(&format!("l{}", j))).collect();
+        let batch = vec![long.clone(), f.clone(), f[..n / 2].to_vec(), vec![]];
+        let bc = ck.batch_commit(batch.clone());
+        for (i, p) in batch.iter().enumerate() {
+            if bc.len() != batch.len() || bc[i] != ck.commit(p) {
+                return Verdict::viol("batch-commit", format!("batch_commit over lengths {:?}: commitment {} is not the commitment of that polynomial alone", batch.iter().map(|p| p.len()).collect::<Vec<_>>(), i));
+            }
+        }
+        // and a multi-point proof against those commitments verifies
+        if pts >= 1 && n >= 1 {
+            let xs: Vec<SF> = (0..pts).map(|j| SF::from(11u64 + 3 * j as u64)).collect();
+            let eta = SF::from(7u64);
+            let nonempty: Vec<&Vec<SF>> = batch.iter().filter(|p| !p.is_empty()).collect();
+            let comms: Vec<_> = batch.iter().zip(bc.iter()).filter(|(p, _)| !p.is_empty()).map(|(_, c)| *c).collect();
+            let proof = ck.batch_open_multi_points(&nonempty[..], &xs, &eta);
+            let evals: Vec<Vec<SF>> = nonempty.iter().map(|p| xs.iter().map(|x| horner(p, *x)).collect()).collect();
+            let vk = VerifierKey::from(&ck);
+            if vk.verify_multi_points(&comms, &xs, &evals, &proof, &eta).is_err() {
+                return Verdict::viol("rejected", "honest multi-point proof against the batch_commit commitments rejected");
+            }
         }
     }
     // index_by: the key whose i-th element is the sum of the powers j with indices[j] = i commits a vector c to
